@@ -259,7 +259,20 @@ func DecodeClaimsFromJSON(buf []byte) (IClaims, error) {
 	}
 
 	if found == nil {
-		return nil, errors.New(`could not match profile`)
+		// a profile claim that is present but matches no registered
+		// profile is an error; its absence means Profile1.
+		for _, entry := range profilesRegister {
+			if profileTag, ok := decoded[entry.JSONTag]; ok && profileTag != nil {
+				return nil, errors.New(`could not match profile`)
+			}
+		}
+
+		entry, ok := profilesRegister[""]
+		if !ok || decoded == nil {
+			return nil, errors.New(`could not match profile`)
+		}
+
+		found = entry.Profile
 	}
 
 	claims := found.GetClaims()
